@@ -201,9 +201,31 @@ def parsed_formula(I, w, env, mem, tree_value, fields=None):
     if fields:
         vals.update(fields)
     out = []
+    ftypes = I.defs.field_types.get('ParsedFormula', {})
     for n in names:
         if n not in vals:
-            raise Unsupported('ParsedFormula has an unknown field `%s`' % n)
+            # a field added by a changed tree: its Default value, by its declared type
+            t = ftypes.get(n, '')
+            if 'RefCell<' in t and ('HashMap' in t or 'HashSet' in t):
+                c2 = I.new_cell()
+                mem[c2] = CellState(MapV(()), 0)
+                vals[n] = RefCellV(c2)
+            elif 'RefCell<' in t and 'Vec<' in t:
+                c2 = I.new_cell()
+                mem[c2] = CellState(Seq(()), 0)
+                vals[n] = RefCellV(c2)
+            elif t.startswith('Vec<'):
+                vals[n] = Seq(())
+            elif t.startswith('Option<'):
+                vals[n] = mk('Option', 0, [])
+            elif t == 'bool':
+                vals[n] = False
+            elif t in ('usize', 'u64', 'i64', 'u32'):
+                vals[n] = 0
+            elif 'HashMap' in t or 'HashSet' in t:
+                vals[n] = MapV(())
+            else:
+                raise Unsupported('ParsedFormula has an unknown field `%s: %s`' % (n, t))
         out.append(vals[n])
     return mk_struct('ParsedFormula', out), mem
 
